@@ -1,8 +1,11 @@
 package main
 
 import (
+	"bytes"
 	"fmt"
 	"go/ast"
+	"go/printer"
+	"go/token"
 	"math/big"
 )
 
@@ -46,5 +49,280 @@ func init() {
 		v := NewV("SM3 initial value", p, "sm3/sm3.go")
 		v.NList("gen_iv", iv)
 		return v.Write(c, "SM3IV.v")
+	})
+}
+
+// ---------------------------------------------------------------------------------------------------
+// sm3consts: every constant the model of sm3.go hard-codes, read from the source -> Gen/SM3Consts.v
+//
+//	rotation amounts of p0 / p1 / the expansion / the two round loops, the two T constants, loop
+//	bounds, array sizes, index offsets into w, block and digest size, the constants of pad, and a flag
+//	saying that update and update2 are the same text up to how the result is delivered.
+type sm3FnSummary struct {
+	rots    []*big.Int   // constant second arguments of leftRotate calls, in source order
+	tconsts []*big.Int   // constant first arguments of leftRotate calls
+	loops   [][]*big.Int // for i := a; i < b; i++  -> [a, b]
+	conds   []*big.Int   // for len(msg) >= c / for len(msg)%blockSize != c  (loops without init)
+	arrays  []*big.Int   // var x [n]T
+	offMin  []*big.Int   // w[i-k]
+	offPlus []*big.Int   // w[i+k]
+	slices  []*big.Int   // msg[c:]  and the factor of msg[c*i : ...]
+}
+
+func sm3Summarise(p *Pkg, f *ast.FuncDecl) *sm3FnSummary {
+	s := &sm3FnSummary{}
+	ast.Inspect(f.Body, func(n ast.Node) bool {
+		switch t := n.(type) {
+		case *ast.CallExpr:
+			if sel, ok := t.Fun.(*ast.SelectorExpr); ok && sel.Sel.Name == "leftRotate" && len(t.Args) == 2 {
+				if v, err := p.Eval(t.Args[1]); err == nil {
+					s.rots = append(s.rots, v)
+				}
+				if v, err := p.Eval(t.Args[0]); err == nil {
+					s.tconsts = append(s.tconsts, v)
+				}
+			}
+		case *ast.ForStmt:
+			if as, ok := t.Init.(*ast.AssignStmt); ok && len(as.Rhs) == 1 {
+				if a, err := p.Eval(as.Rhs[0]); err == nil {
+					if c, ok := t.Cond.(*ast.BinaryExpr); ok && c.Op == token.LSS {
+						if b, err := p.Eval(c.Y); err == nil {
+							s.loops = append(s.loops, []*big.Int{a, b})
+						}
+					}
+				}
+			} else if c, ok := t.Cond.(*ast.BinaryExpr); ok && t.Init == nil {
+				if b, err := p.Eval(c.Y); err == nil {
+					s.conds = append(s.conds, b)
+				}
+			}
+		case *ast.ArrayType:
+			if t.Len != nil {
+				if v, err := p.Eval(t.Len); err == nil {
+					s.arrays = append(s.arrays, v)
+				}
+			}
+		case *ast.IndexExpr:
+			if id, ok := t.X.(*ast.Ident); ok && id.Name == "w" {
+				if b, ok := t.Index.(*ast.BinaryExpr); ok {
+					if v, err := p.Eval(b.Y); err == nil {
+						if b.Op == token.SUB {
+							s.offMin = append(s.offMin, v)
+						} else if b.Op == token.ADD {
+							s.offPlus = append(s.offPlus, v)
+						}
+					}
+				}
+			}
+		case *ast.SliceExpr:
+			if t.Low != nil {
+				if v, err := p.Eval(t.Low); err == nil {
+					s.slices = append(s.slices, v)
+				} else if b, ok := t.Low.(*ast.BinaryExpr); ok && b.Op == token.MUL {
+					if v, err := p.Eval(b.X); err == nil {
+						s.slices = append(s.slices, v)
+					}
+				}
+			}
+		}
+		return true
+	})
+	return s
+}
+
+func sm3StmtText(p *Pkg, st ast.Stmt) string {
+	var b bytes.Buffer
+	printer.Fprint(&b, p.Fset, st)
+	return b.String()
+}
+
+// update and update2: same statements except that update ends with one assignment of a..h to
+// sm3.digest[0..7] and update2 with "var digest [8]uint32", the same assignment to digest[0..7], "return digest"
+func sm3SameUpdate(p *Pkg, u, u2 *ast.FuncDecl) bool {
+	a, b := u.Body.List, u2.Body.List
+	if len(a) < 1 || len(b) < 3 || len(a)-1 != len(b)-3 {
+		return false
+	}
+	for i := 0; i < len(a)-1; i++ {
+		if sm3StmtText(p, a[i]) != sm3StmtText(p, b[i]) {
+			return false
+		}
+	}
+	rhsOK := func(st ast.Stmt, prefix string) bool {
+		as, ok := st.(*ast.AssignStmt)
+		if !ok || len(as.Lhs) != 8 || len(as.Rhs) != 8 {
+			return false
+		}
+		for i, name := range []string{"a", "b", "c", "d", "e", "f", "g", "h"} {
+			id, ok := as.Rhs[i].(*ast.Ident)
+			if !ok || id.Name != name {
+				return false
+			}
+			var lb bytes.Buffer
+			printer.Fprint(&lb, p.Fset, as.Lhs[i])
+			if lb.String() != fmt.Sprintf("%s[%d]", prefix, i) {
+				return false
+			}
+		}
+		return true
+	}
+	if !rhsOK(a[len(a)-1], "sm3.digest") || !rhsOK(b[len(b)-2], "digest") {
+		return false
+	}
+	if sm3StmtText(p, b[len(b)-3]) != "var digest [8]uint32" || sm3StmtText(p, b[len(b)-1]) != "return digest" {
+		return false
+	}
+	return true
+}
+
+func init() {
+	register("sm3consts", func(c *Ctx) error {
+		p, err := LoadPkg(c, "sm3", "sm3.go")
+		if err != nil {
+			return err
+		}
+		need := func(name string) (*ast.FuncDecl, error) {
+			f, ok := p.Funcs["SM3."+name]
+			if !ok {
+				return nil, fmt.Errorf("(*SM3).%s not found", name)
+			}
+			return f, nil
+		}
+		v := NewV("SM3: the constants of the round structure, of pad and of the hash.Hash methods", p, "sm3/sm3.go")
+		for _, fn := range []string{"p0", "p1", "leftRotate"} {
+			f, err := need(fn)
+			if err != nil {
+				return err
+			}
+			s := sm3Summarise(p, f)
+			if fn == "leftRotate" {
+				// x<<(i%32) | x>>(32-i%32): the integer literals in source order
+				var lits []*big.Int
+				ast.Inspect(f.Body, func(n ast.Node) bool {
+					if bl, ok := n.(*ast.BasicLit); ok {
+						if x, err := p.Eval(bl); err == nil {
+							lits = append(lits, x)
+						}
+					}
+					return true
+				})
+				v.NList("gen_leftRotate_lits", lits)
+			} else {
+				v.NList("gen_"+fn+"_rots", s.rots)
+			}
+		}
+		u, err := need("update")
+		if err != nil {
+			return err
+		}
+		u2, err := need("update2")
+		if err != nil {
+			return err
+		}
+		su := sm3Summarise(p, u)
+		if len(su.rots) == 0 || len(su.loops) == 0 {
+			return fmt.Errorf("update: no rotations / loops with constant bounds found")
+		}
+		v.NList("gen_update_rots", su.rots)
+		v.NList("gen_update_T", su.tconsts)
+		v.NListList("gen_update_loops", su.loops)
+		v.NList("gen_update_conds", su.conds)
+		v.NList("gen_update_arrays", su.arrays)
+		v.NList("gen_update_w_minus", su.offMin)
+		v.NList("gen_update_w_plus", su.offPlus)
+		v.NList("gen_update_slices", su.slices)
+		same := sm3SameUpdate(p, u, u2)
+		v.Raw(fmt.Sprintf("Definition gen_update2_same_as_update : bool := %v.\n", same))
+
+		pad, err := need("pad")
+		if err != nil {
+			return err
+		}
+		var appends, shifts, masks, assigns, neqs []*big.Int
+		ast.Inspect(pad.Body, func(n ast.Node) bool {
+			switch t := n.(type) {
+			case *ast.CallExpr:
+				if id, ok := t.Fun.(*ast.Ident); ok && id.Name == "append" && len(t.Args) == 2 {
+					if x, err := p.Eval(t.Args[1]); err == nil {
+						appends = append(appends, x)
+					}
+				}
+			case *ast.AssignStmt:
+				if t.Tok == token.DEFINE && len(t.Rhs) == 1 {
+					if x, err := p.Eval(t.Rhs[0]); err == nil {
+						assigns = append(assigns, x)
+					}
+				}
+			case *ast.BinaryExpr:
+				switch t.Op {
+				case token.SHR:
+					if x, err := p.Eval(t.Y); err == nil {
+						shifts = append(shifts, x)
+					}
+				case token.AND:
+					if x, err := p.Eval(t.Y); err == nil {
+						masks = append(masks, x)
+					}
+				case token.NEQ:
+					if x, err := p.Eval(t.Y); err == nil {
+						neqs = append(neqs, x)
+					}
+					if m, ok := t.X.(*ast.BinaryExpr); ok && m.Op == token.REM {
+						if x, err := p.Eval(m.Y); err == nil {
+							neqs = append(neqs, x)
+						}
+					}
+				}
+			}
+			return true
+		})
+		v.NList("gen_pad_appends", appends)
+		v.NList("gen_pad_assigns", assigns)
+		v.NList("gen_pad_neqs", neqs)
+		v.NList("gen_pad_shifts", shifts)
+		v.NList("gen_pad_masks", masks)
+
+		for _, fn := range []string{"BlockSize", "Size"} {
+			f, err := need(fn)
+			if err != nil {
+				return err
+			}
+			var ret *big.Int
+			ast.Inspect(f.Body, func(n ast.Node) bool {
+				if r, ok := n.(*ast.ReturnStmt); ok && len(r.Results) == 1 {
+					if x, err := p.Eval(r.Results[0]); err == nil {
+						ret = x
+					}
+				}
+				return true
+			})
+			if ret == nil {
+				return fmt.Errorf("%s does not return a constant", fn)
+			}
+			v.N("gen_"+fn, ret)
+		}
+		// Write: len(p) * 8
+		w, err := need("Write")
+		if err != nil {
+			return err
+		}
+		var muls []*big.Int
+		ast.Inspect(w.Body, func(n ast.Node) bool {
+			if b, ok := n.(*ast.BinaryExpr); ok && b.Op == token.MUL {
+				if x, err := p.Eval(b.Y); err == nil {
+					muls = append(muls, x)
+				}
+			}
+			return true
+		})
+		v.NList("gen_Write_muls", muls)
+		// Sum: for i := 0; i < 8; i++ { PutUint32(out[i*4:], digest[i]) }
+		sm, err := need("Sum")
+		if err != nil {
+			return err
+		}
+		ss := sm3Summarise(p, sm)
+		v.NListList("gen_Sum_loops", ss.loops)
+		return v.Write(c, "SM3Consts.v")
 	})
 }
